@@ -18,38 +18,41 @@ EXTENDS Naturals, FiniteSets, TLC
 
 CONSTANTS
   Procs,       \* link processes (one per `garble toolexec link`)
+  TmpRename,   \* BOOLEAN: PatchLinker builds to link.tmp (removed first) and renames it into place, as the
+               \* code does since the fix of finding F18; FALSE = the code before: `go build -o link` in place
   CopyMode,    \* BOOLEAN: `go build -o` copies (cross-device TMPDIR) instead of renaming
   MaxKills,    \* bound on Kill actions
   MaxDamage,   \* bound on Damage actions
   InitStates   \* set of <<stamp, bin>> initial cache states
 
-VARIABLES lock, stamp, bin, pc, used, kills, damages
-vars == <<lock, stamp, bin, pc, used, kills, damages>>
+VARIABLES lock, stamp, bin, tmp, pc, used, kills, damages
+vars == <<lock, stamp, bin, tmp, pc, used, kills, damages>>
 
 FileStates == {"none", "partial", "old", "cur"}
-PCs == {"idle", "wait", "locked", "patch", "build", "building", "built", "stamping", "run", "ran", "done"}
-InCS(p) == pc[p] \in {"locked", "patch", "build", "building", "built", "stamping", "run", "ran"}
+PCs == {"idle", "wait", "locked", "patch", "build", "building", "skipping", "built", "renamed", "stamping", "run", "ran", "done"}
+InCS(p) == pc[p] \in {"locked", "patch", "build", "building", "skipping", "built", "renamed", "stamping", "run", "ran"}
 
 TypeOK == /\ lock \in Procs \cup {"none"}
-          /\ stamp \in FileStates /\ bin \in FileStates
+          /\ stamp \in FileStates /\ bin \in FileStates /\ tmp \in FileStates
           /\ pc \in [Procs -> PCs]
           /\ used \in [Procs -> FileStates \cup {"-"}]
 
 Init == /\ lock = "none"
         /\ \E s \in InitStates : stamp = s[1] /\ bin = s[2]
+        /\ tmp = "none"
         /\ pc = [p \in Procs |-> "idle"]
         /\ used = [p \in Procs |-> "-"]
         /\ kills = 0 /\ damages = 0
 
 Start(p) == /\ pc[p] = "idle"
             /\ pc' = [pc EXCEPT ![p] = "wait"]
-            /\ UNCHANGED <<lock, stamp, bin, used, kills, damages>>
+            /\ UNCHANGED <<lock, stamp, bin, tmp, used, kills, damages>>
 
 (* mutex.Lock(): flock on link.lock *)
 Lock(p) == /\ pc[p] = "wait" /\ lock = "none"
            /\ lock' = p
            /\ pc' = [pc EXCEPT ![p] = "locked"]
-           /\ UNCHANGED <<stamp, bin, used, kills, damages>>
+           /\ UNCHANGED <<stamp, bin, tmp, used, kills, damages>>
 
 (* checkVersion + fileExists: reuse iff the stamp is current and vouches for the  *)
 (* file that is there.  The stamp records the size of the binary it was written  *)
@@ -60,45 +63,66 @@ Lock(p) == /\ pc[p] = "wait" /\ lock = "none"
 Reuse == stamp = "cur" /\ bin = "cur"
 Check(p) == /\ pc[p] = "locked"
             /\ pc' = [pc EXCEPT ![p] = IF Reuse THEN "run" ELSE "patch"]
-            /\ UNCHANGED <<lock, stamp, bin, used, kills, damages>>
+            /\ UNCHANGED <<lock, stamp, bin, tmp, used, kills, damages>>
 
 (* applyPatches: private temp dir, no shared state *)
 Patch(p) == /\ pc[p] = "patch"
             /\ pc' = [pc EXCEPT ![p] = "build"]
-            /\ UNCHANGED <<lock, stamp, bin, used, kills, damages>>
+            /\ UNCHANGED <<lock, stamp, bin, tmp, used, kills, damages>>
 
-(* buildLinker: `go build -o link cmd/link`; the output appears by rename, or is *)
-(* written in place when cmd/go has to copy                                      *)
-BuildStart(p) == /\ pc[p] = "build"
-                 /\ bin' = IF CopyMode THEN "partial" ELSE bin
-                 /\ pc' = [pc EXCEPT ![p] = "building"]
-                 /\ UNCHANGED <<lock, stamp, used, kills, damages>>
-BuildDone(p) == /\ pc[p] = "building"
-                /\ bin' = "cur"
-                /\ pc' = [pc EXCEPT ![p] = "built"]
-                /\ UNCHANGED <<lock, stamp, used, kills, damages>>
+(* buildLinker: `go build -o <target> cmd/link`.  cmd/go first reads the build ID at  *)
+(* the start of an existing target: a file that carries the ID of what it is about to *)
+(* build - the current linker, or a copy of it that was cut short - is "up to date"   *)
+(* and is left alone; anything else is replaced, by rename, or written in place when  *)
+(* cmd/go has to copy (its work dir and the target are on different file systems).    *)
+(* Since the fix of F18 the target is link.tmp, which PatchLinker removes first, and  *)
+(* the result is renamed over link; before, the target was link itself.               *)
+UpToDateForGo(f) == f \in {"cur", "partial"}
+BuildStart(p) ==
+  /\ pc[p] = "build"
+  /\ IF TmpRename
+       THEN /\ tmp' = IF CopyMode THEN "partial" ELSE "none"      \* os.Remove(link.tmp); go build -o link.tmp
+            /\ pc' = [pc EXCEPT ![p] = "building"]
+            /\ UNCHANGED bin
+       ELSE /\ IF UpToDateForGo(bin)
+                 THEN pc' = [pc EXCEPT ![p] = "skipping"] /\ UNCHANGED bin
+                 ELSE pc' = [pc EXCEPT ![p] = "building"] /\ bin' = IF CopyMode THEN "partial" ELSE bin
+            /\ UNCHANGED tmp
+  /\ UNCHANGED <<lock, stamp, used, kills, damages>>
+BuildDone(p) ==
+  /\ pc[p] \in {"building", "skipping"}
+  /\ IF TmpRename THEN tmp' = "cur" /\ UNCHANGED bin
+     ELSE (bin' = IF pc[p] = "skipping" THEN bin ELSE "cur") /\ UNCHANGED tmp
+  /\ pc' = [pc EXCEPT ![p] = "built"]
+  /\ UNCHANGED <<lock, stamp, used, kills, damages>>
+(* os.Rename(link.tmp, link): atomic *)
+Rename(p) ==
+  /\ TmpRename /\ pc[p] = "built"
+  /\ bin' = tmp /\ tmp' = "none"
+  /\ pc' = [pc EXCEPT ![p] = "renamed"]
+  /\ UNCHANGED <<lock, stamp, used, kills, damages>>
 
 (* writeVersion: os.WriteFile is truncate-then-write *)
-StampStart(p) == /\ pc[p] = "built"
+StampStart(p) == /\ pc[p] = (IF TmpRename THEN "renamed" ELSE "built")
                  /\ stamp' = "partial"
                  /\ pc' = [pc EXCEPT ![p] = "stamping"]
-                 /\ UNCHANGED <<lock, bin, used, kills, damages>>
+                 /\ UNCHANGED <<lock, bin, tmp, used, kills, damages>>
 StampDone(p) == /\ pc[p] = "stamping"
                 /\ stamp' = "cur"
                 /\ pc' = [pc EXCEPT ![p] = "run"]
-                /\ UNCHANGED <<lock, bin, used, kills, damages>>
+                /\ UNCHANGED <<lock, bin, tmp, used, kills, damages>>
 
 (* the caller executes the returned path as the linker, still holding the lock *)
 RunLinker(p) == /\ pc[p] = "run"
                 /\ used' = [used EXCEPT ![p] = bin]
                 /\ pc' = [pc EXCEPT ![p] = "ran"]
-                /\ UNCHANGED <<lock, stamp, bin, kills, damages>>
+                /\ UNCHANGED <<lock, stamp, bin, tmp, kills, damages>>
 
 (* deferred unlock() in main.go *)
 Unlock(p) == /\ pc[p] = "ran"
              /\ lock' = "none"
              /\ pc' = [pc EXCEPT ![p] = "done"]
-             /\ UNCHANGED <<stamp, bin, used, kills, damages>>
+             /\ UNCHANGED <<stamp, bin, tmp, used, kills, damages>>
 
 (* kill -9: the process disappears, the kernel drops its flock, files stay;  *)
 (* the user reruns the same build (pc back to idle)                          *)
@@ -108,12 +132,13 @@ Kill(p) == /\ kills < MaxKills
            /\ lock' = IF lock = p THEN "none" ELSE lock
            /\ pc' = [pc EXCEPT ![p] = "idle"]
            /\ used' = [used EXCEPT ![p] = "-"]
-           /\ UNCHANGED <<stamp, bin, damages>>
+           /\ UNCHANGED <<stamp, bin, tmp, damages>>
 
 (* C07 faults: an entry is deleted or truncated while no build is running *)
 Quiescent == \A p \in Procs : pc[p] \in {"idle", "done"}
 Damage == /\ damages < MaxDamage /\ Quiescent
           /\ damages' = damages + 1
+          /\ UNCHANGED tmp
           /\ \/ (stamp' \in {"none", "partial"} /\ bin' = bin)
              \/ (bin' \in {"none", "partial"} /\ stamp' = stamp)
              \/ (stamp' = "none" /\ bin' = "none")
@@ -121,7 +146,7 @@ Damage == /\ damages < MaxDamage /\ Quiescent
           /\ used' = [p \in Procs |-> "-"]
           /\ UNCHANGED <<lock, kills>>
 
-Step(p) == \/ Start(p) \/ Lock(p) \/ Check(p) \/ Patch(p) \/ BuildStart(p) \/ BuildDone(p)
+Step(p) == \/ Start(p) \/ Lock(p) \/ Check(p) \/ Patch(p) \/ BuildStart(p) \/ BuildDone(p) \/ Rename(p)
            \/ StampStart(p) \/ StampDone(p) \/ RunLinker(p) \/ Unlock(p)
 Next == (\E p \in Procs : Step(p) \/ Kill(p)) \/ Damage
 
@@ -136,7 +161,11 @@ LockHolder == \A p \in Procs : InCS(p) <=> lock = p
 StampImpliesBin == (stamp = "cur" /\ Quiescent) => bin = "cur"
 AllDone == <>(\A p \in Procs : pc[p] = "done")
 
-View == <<lock, stamp, bin, pc, used>>
+View == <<lock, stamp, bin, tmp, pc, used>>
+
+(* behaviour export for replay (B2): the file-system states a kill can leave behind; the *)
+(* check concretises each one in a real GARBLE_CACHE/tool directory and reruns the build *)
+EmitPostKill == (kills > 0 /\ lock = "none" /\ Quiescent) => PrintT(<<"POSTKILL", stamp, bin, tmp>>)
 
 (* initial cache states for the configs (cfg files cannot write tuples) *)
 InitBuilt == {<<"none", "none">>, <<"cur", "cur">>, <<"old", "old">>, <<"none", "old">>, <<"old", "none">>}
